@@ -10,7 +10,10 @@ From V Require Import Common.NumFacts C14.Model C14.Proofs.
    proxies, copies, phase views, reset_cache, property-package reset) starting from the empty object table,
    a read of any property on any existing object returns the value the property package computes for the
    object's CURRENT phase(s), T, P and normalised composition (times the current total flow where the
-   source scales) -- never a memoised value of another state.  [spec_read] never looks at a memo. *)
+   source scales) -- never a memoised value of another state.  [spec_read] never looks at a memo.
+   The property functions are PARTIAL (None = the function raises and the caller catches the exception): a read
+   raises exactly when a fresh stream in the same state raises ([RErr] on both sides), and a read that raised
+   earlier in the history never leaves a memo that a later read could mistake for the current state. *)
 Theorem C14_read_fresh : forall calc1 calcx cv,
   calc1_respects calc1 -> calcx_respects calcx ->
   forall ops i name flow nophase,
@@ -30,7 +33,8 @@ Theorem C14_read_op_fresh : forall calc1 calcx cv,
   calc1_respects calc1 -> calcx_respects calcx ->
   forall ops i name flow nophase,
     let w' := run_world calc1 calcx true cv w0 ops in
-    (exists r, snd (step calc1 calcx true cv w' (ORead i name flow nophase)) = BVal r /\
+    (exists r, snd (step calc1 calcx true cv w' (ORead i name flow nophase))
+                 = match r with RErr => BErr ERuntime | _ => BVal r end /\
                rd_equiv r (spec_read calc1 calcx w' i name flow nophase) /\
                w_st (fst (step calc1 calcx true cv w' (ORead i name flow nophase))) = w_st w')
     \/ ((length (cobjs (w_cs w')) <= i)%nat /\
@@ -226,4 +230,21 @@ Example C14_fresh_any_hypotheses :
 Proof.
   split; [vm_compute; lia|]. repeat (split; [vm_compute; reflexivity|]).
   eexists. split; [vm_compute; reflexivity|]. intros E. unfold Qeq in E. vm_compute in E. discriminate E.
+Qed.
+
+(* the error path is reachable: mu raises at T = 384 K after H was memoised at 300 K; the failed read leaves the key
+   of the new state over an EMPTY dict, and the next read of H recomputes *)
+Definition raise_ops : list op :=
+  [ONew [[1; 2; 0]; [0; 1; 4]] [0%nat; 1%nat] 300 101325 O; ORead O O true false; OSetT O 384; ORead O 5%nat false false].
+Example C14_error_path :
+  let wb := run stub_calc1 stub_calcx true stub_cvol w0 raise_ops in
+  nth 3 (snd wb) BOk = BErr ERuntime /\
+  memo_of (w_cs (fst wb)) (c_m (cobj_of (w_cs (fst wb)) O)) = [] /\
+  (exists k, key_of (w_cs (fst wb)) (c_k (cobj_of (w_cs (fst wb)) O)) = Some k) /\
+  rd_equivb (snd (get_property stub_calc1 stub_calcx (fst wb) O O true false))
+            (spec_read stub_calc1 stub_calcx (fst wb) O O true false) = true /\
+  spec_read stub_calc1 stub_calcx (fst wb) O 5%nat false false = RErr.
+Proof.
+  split; [vm_compute; reflexivity|]. split; [vm_compute; reflexivity|].
+  split; [eexists; vm_compute; reflexivity|]. split; vm_compute; reflexivity.
 Qed.
